@@ -945,6 +945,7 @@ def sig_check(prop, tier):
                 reached, total = tv2["progress"][sid]
                 run.violation("C10 stub v=%s page_off=%s" % (byid[sid].get("boolv"), byid[sid].get("off")),
                               {"scenario": byid[sid], "first_unmatched_event": evs[reached] if reached < len(evs) else None})
+        regs_part(run, "C10", tier)
     return run.finish()
 
 
@@ -1098,13 +1099,104 @@ def async_check(prop, tier):
     return run.finish()
 
 
+# =============================================================== calling convention (C13)
+
+def regs_part(run, prop, tier):
+    """assembly probes validated by TLC (Trace_Regs)"""
+    n = 150 if tier == "quick" else 3000
+    if prop == "C13":
+        scen = [{"id": 1, "form": "near", "n": n}, {"id": 2, "form": "far", "n": n}, {"id": 3, "mode": "shapes", "n": n}]
+    else:
+        scen = [{"id": 1, "form": "bool", "n": n, "v": True}, {"id": 2, "form": "bool", "n": n, "v": False}]
+    groups, order, _ = vlib.run_harness("regs", scen, "regs_" + prop, timeout=3000)
+    cfgp = tlc.make_cfg("Trace_Regs", {"Props": '{"%s", "ALL"}' % prop}, "Trace_Regs_" + prop)
+    # one scenario per probe so that every register file gets its own verdict
+    per = []
+    for sc in scen:
+        for e in groups.get(sc["id"], []):
+            if e["ev"] in ("RegProbe", "ProbeEnd", "Shapes", "ChildExit"):
+                per.append((len(per) + 1, [e]))
+    tv = tlc.validate_traces("Trace_Regs", cfgp, per, WORK, "trace_regs_" + prop, timeout=3000)
+    run.traces += len(tv["accepted"])
+    run.states += tv["states"]
+    run.transitions += tv["transitions"]
+    nprobe = 0
+    for sid, evs in per:
+        e = evs[0]
+        if e["ev"] == "RegProbe":
+            nprobe += 1
+            run.note_case("probe %s %s" % (e["form"], e["in"][0]))
+        if sid not in tv["accepted"]:
+            if e["ev"] == "RegProbe":
+                diff = [i for i in range(28) if e["seen"][i] != e["in"][i] and i in list(range(0, 20)) + [21, 22]]
+                diffa = [i for i in range(14, 20) if e["after"][i] != e["in"][i]]
+                key = "%s probe form=%s changed_at_fake=%s changed_after=%s rsp_ok=%s/%s" % (prop, e["form"], diff, diffa, e["rsp_at_fake_ok"], e["rsp_after_ok"])
+            else:
+                key = "%s %s" % (prop, json.dumps({k: e[k] for k in e if k not in ("seq", "t", "sc")}, sort_keys=True))
+            run.violation(key, {"event": e})
+    if nprobe == 0:
+        raise ToolError("vacuity guard: no register probe executed")
+    run.extra["register_probes"] = nprobe
+    run.sample({k: per[0][1][0].get(k) for k in ("form", "in", "seen", "after")})
+
+
+def cc_check(prop, tier):
+    """C13 = recorded bytes on the ISA models (x86-64 placements, arm64/arm simulated) + assembly probes + Rust-level shapes"""
+    run = Run(prop, tier)
+    run.rule = ("(a) entry/trampoline bytes of a lattice of placements (short and long trampoline form) executed on X64.tla: only rax/r10/r11 may be "
+                "written; (b) simulated arm64 / arm bytes: no argument or callee-saved register written; (c) assembly caller/fake probes with seeded "
+                "random register files (6 integer + 8 vector argument registers, 2 stack arguments, callee-saved set, rsp), near and far fakes; "
+                "(d) Rust-level fakes with 14 mixed integer/float arguments, 200-byte struct return (hidden return slot), two-register return")
+    run.assumptions = ["System V AMD64 calling convention", "far probe reaches the assembly fake through a hop that uses r11 (free scratch)"]
+    r = tlc.check("MC_Geom", "MC_Geom_q", workers=TLC_WORKERS, timeout=3000)
+    run.add_model(r)
+    vlib.build_harness()
+    # (a)
+    scen = [sc for sc in placement_scenarios(tier) if sc.get("flavour") != "bool"]
+    for k, sc in enumerate(scen, 1):
+        sc["id"] = k
+    groups, order, _ = vlib.run_harness("placement", scen, "placement_C13", timeout=3000)
+    cfgp = tlc.make_cfg("Trace_Patch", {"Props": '{"C13", "ALL"}'}, "Trace_Patch_C13")
+    live = [sc for sc in scen if not any(e["ev"] == "Note" and e.get("what") == "skipped" for e in groups.get(sc["id"], []))]
+    tv = tlc.validate_traces("Trace_Patch", cfgp, [(sc["id"], groups.get(sc["id"], [])) for sc in live], WORK, "trace_C13p", timeout=3000)
+    run.traces += len(tv["accepted"])
+    run.states += tv["states"]
+    run.transitions += tv["transitions"]
+    byid = {sc["id"]: sc for sc in scen}
+    forms = {"short": 0, "long": 0}
+    for sid in tv["ids"]:
+        evs = groups.get(sid, [])
+        inst = next((e for e in evs if e["ev"] == "Installed"), None)
+        if inst and inst["outcome"] == "ok":
+            forms["short" if inst["trampb"][0] == 0xE9 else "long"] += 1
+        run.note_case("placement %s" % json.dumps({k: byid[sid][k] for k in byid[sid] if k != "id"}, sort_keys=True))
+        if sid not in tv["accepted"]:
+            reached, total = tv["progress"][sid]
+            fe = evs[reached] if reached < len(evs) else None
+            # crashes of the installation itself belong to C01, not to the calling convention
+            if fe is not None and fe["ev"] == "Installed":
+                run.violation("C13 bytes trampoline=%s" % bytes(fe["trampb"][:12]).hex(), {"scenario": byid[sid], "event": fe})
+    if forms["short"] == 0 or forms["long"] == 0:
+        raise ToolError("vacuity guard: trampoline forms seen %s" % forms)
+    run.extra["trampoline_forms"] = forms
+    # (b)
+    cases = a64_cases("quick")[::7] + arm_cases("quick")[::5] if tier == "quick" else a64_cases("quick") + arm_cases("quick")
+
+    def key(fe):
+        return "C13 simulated isa=%s" % (fe["isa"] if fe else "?")
+    sim_validate(run, "C13", cases, 300, key)
+    # (c) + (d)
+    regs_part(run, "C13", tier)
+    return run.finish()
+
+
 CHECKS = {
     "C01": placement_check,
     "C14": async_check,
     "C08": arms_check,
     "C09": sig_check,
     "C10": sig_check,
-    "C13": placement_check,
+    "C13": cc_check,
     "C15": a64_check,
     "C16": arm_check,
     "C04": lock_check,
